@@ -327,7 +327,7 @@ def run(t, budget=1.0):
                             {"cmd": line, "config": cfg, "expected": "OK trait=%d" % expv, "actual": resp, "values": values.tree_hash_key(vals)},
                             "[%s] message %s trait size_bytes(%s) (level #%d): expected %d, got %s" % (cfg, L.name, args, which, expv, resp[:100]))
 
-    pc.run_hypothesis(body, 1500 if t == "quick" else 25000)
+    pc.run_hypothesis(body, 3000 if t == "quick" else 25000)
     return pc.finish()
 
 
